@@ -69,6 +69,7 @@ async fn autopilot(shared: Arc<Mutex<Shared>>, mode: PayMode) {
                 "listdatastore" => Some(s.node.listdatastore(&s.pending[i].params)),
                 "listsendpays" => Some(s.node.listsendpays(&s.pending[i].params)),
                 "waitsendpay" => Some(s.node.waitsendpay(&s.pending[i].params).unwrap_or_else(|| rpc_error(200, "timed out"))),
+                "pay" if s.hold_pays => None,
                 "pay" => {
                     let hash = s.pending[i].hash;
                     match (mode, hash) {
@@ -127,6 +128,7 @@ impl Proc {
             auto_getinfo: u32::MAX,
             local_id: local_pubkey().to_string(),
             getinfo_delay_ms: GETINFO_DELAY_MS.with(|d| d.get()),
+            hold_pays: false,
         }));
         let mut tasks = vec![];
         tasks.push(tokio::spawn(serve(listener, shared.clone())));
@@ -591,6 +593,106 @@ fn run_height(c: &HeightCase) -> CaseReport {
         rep.sample = Some(serde_json::to_value(c).unwrap());
     }
     rep
+}
+
+// ------------------------------------------------------------------ C02: a slow pay command through the binary
+
+#[derive(Clone, Debug, Serialize, Deserialize)]
+pub struct SlowPay {
+    pub hold_s: u64,
+    pub pay_timeout: i64,
+    pub xpay: bool,
+}
+
+/// The node leaves `pay` unanswered for `hold_s` seconds (a payment that takes long). While it runs the HTLC
+/// must not be failed, whatever the configured timeouts; when pay completes the HTLC is settled.
+fn run_slow_pay(c: &SlowPay) -> CaseReport {
+    let mut rep = CaseReport::default();
+    if bin_missing() {
+        rep.inconclusive = true;
+        return rep;
+    }
+    let cfg = Cfg { mpp_timeout_s: 1, ..Cfg::default() };
+    let pay = PaymentSpec { preimage: 0x35, invoice_amount: Some(1_000_000), tlv_amount: 1_000_000, hints: Hints::None, explicit_payee: false, recipient_ok: true, drain_parts: 1 };
+    let need = needed_total(&cfg, 1_000_000);
+    let h = HtlcSpec { pay: 0, hash_of: None, amount_msat: need, total_msat: Some(need), forward_msat: Some(need), cltv_expiry: 1000 + 1200, cltv_rel: 1100, forward: false, meta: Meta::Normal, extra: vec![], raw_payload: None };
+    let scn = crate::props::c13::blank(vec![pay.clone()], vec![h], 1);
+    let r = rt();
+    let res: Result<(), String> = r.block_on(async {
+        let mut o = default_options();
+        o.insert("trampoline-payment-timeout".into(), json!(c.pay_timeout));
+        o.insert("trampoline-xpay".into(), json!(c.xpay));
+        let started = Proc::start(o, None, PayMode::Complete, 1000, &[pay.preimage_bytes()]).await?;
+        let mut p = match started {
+            Started::Running(p) => p,
+            Started::Refused { stderr, .. } => return Err(format!("refused: {stderr}")),
+        };
+        p.shared.lock().unwrap().hold_pays = true;
+        p.send_htlc(json!("slow"), &scn.render(0)).await;
+        let t0 = std::time::Instant::now();
+        let mut early: Option<Value> = None;
+        while t0.elapsed() < Duration::from_secs(c.hold_s) {
+            if let Some(rp) = p.reply(&json!("slow")) {
+                early = Some(rp);
+                break;
+            }
+            tokio::time::sleep(Duration::from_millis(50)).await;
+        }
+        let pay_outstanding = p.shared.lock().unwrap().pending.iter().any(|r| r.method == "pay");
+        if let Some(rp) = early {
+            if pay_outstanding {
+                rep.violations.push(Violation::new(
+                    "C02",
+                    "answered_while_pay_command_running",
+                    format!("after {:?} the HTLC was answered {} while the node's pay command for it is still running (options: mpp 1 s, payment timeout {} s)", t0.elapsed(), rp["result"], c.pay_timeout),
+                ));
+            } else {
+                rep.inconclusive = true;
+            }
+        } else {
+            p.shared.lock().unwrap().hold_pays = false;
+            match p.wait_reply(&json!("slow"), 8000).await {
+                Some(rp) if rp["result"]["result"] == "resolve" => {}
+                Some(rp) => rep.violations.push(Violation::new("C02", "not_settled_after_slow_pay_completed", format!("pay completed after {} s; HTLC answered {}", c.hold_s, rp["result"]))),
+                None => {
+                    if let Some(m) = p.panicked() {
+                        rep.violations.push(Violation::new("C06", "panic_in_binary", m));
+                    } else {
+                        rep.inconclusive = true;
+                    }
+                }
+            }
+        }
+        p.stop().await;
+        Ok(())
+    });
+    if let Err(e) = res {
+        rep.inconclusive = true;
+        rep.classes.push(format!("infrastructure: {}", e.chars().take(80).collect::<String>()));
+    }
+    rep.nontrivial = true;
+    rep.fingerprint = fp_of(&(c.hold_s, c.pay_timeout, c.xpay));
+    rep.classes.push("e2e_slow_pay".into());
+    rep.sample = Some(serde_json::to_value(c).unwrap());
+    rep
+}
+
+pub fn c02_e2e(s: &mut Session) {
+    e2e_workers_note(s);
+    booked(s, |s| {
+        s.regress::<SlowPay, _>("e2e-slow-pay", run_slow_pay);
+        let cases = vec![
+            SlowPay { hold_s: 14, pay_timeout: 0, xpay: false },
+            SlowPay { hold_s: 14, pay_timeout: 1, xpay: true },
+            SlowPay { hold_s: 6, pay_timeout: 0, xpay: false },
+            SlowPay { hold_s: 18, pay_timeout: 3, xpay: false },
+        ];
+        s.enumerate("e2e-slow-pay", "e2e-slow-pay", cases, run_slow_pay);
+    });
+}
+
+pub fn replay_slow_pay(c: Value) -> Option<CaseReport> {
+    Some(run_slow_pay(&serde_json::from_value(c).ok()?))
 }
 
 pub fn c20_e2e(s: &mut Session) {
